@@ -78,6 +78,60 @@ func (m *C11) OnStep(_ explore.Ghost, st *explore.Step) []V {
 		return m.put(st, msg)
 	case *baskettypes.MsgTake:
 		return m.take(st, msg)
+	case *baskettypes.MsgUpdateDateCriteria:
+		if st.Res.OK {
+			m.inc("criteria_updates")
+			return m.stored(st, msg.Denom, msg.NewDateCriteria)
+		}
+	case *baskettypes.MsgCreate:
+		if r, ok := st.Res.Resp.(*baskettypes.MsgCreateResponse); ok && st.Res.OK {
+			m.inc("baskets_created")
+			return m.stored(st, r.BasketDenom, msg.DateCriteria)
+		}
+	}
+	return nil
+}
+
+// critTuple is a date criterion field by field (presence included).
+type critTuple struct {
+	hasMin, hasWin bool
+	min, win       tsKey
+	years          uint32
+}
+
+func (c critTuple) String() string {
+	return fmt.Sprintf("{min:%v %d.%09d window:%v %d.%09d years:%d}", c.hasMin, c.min.s, c.min.n, c.hasWin, c.win.s, c.win.n, c.years)
+}
+
+// stored: the criterion a basket holds after a successful create/update is exactly the one the message
+// carried — admission is evaluated against the stored one, so "the criteria in force" is only as good as this.
+func (m *C11) stored(st *explore.Step, denom string, req *baskettypes.DateCriteria) []V {
+	var want, got critTuple
+	if req != nil {
+		if req.MinStartDate != nil {
+			want.hasMin, want.min = true, tsKey{req.MinStartDate.Seconds, req.MinStartDate.Nanos}
+		}
+		if req.StartDateWindow != nil {
+			want.hasWin, want.win = true, tsKey{req.StartDateWindow.Seconds, req.StartDateWindow.Nanos}
+		}
+		want.years = req.YearsInThePast
+	}
+	b := st.Post.BasketByDenom(denom)
+	if b == nil {
+		return []V{{Kind: "C11/basket-missing-after-create-or-update", Detail: st.Act.Label}}
+	}
+	if dc := b.DateCriteria; dc != nil {
+		if dc.MinStartDate != nil {
+			got.hasMin, got.min = true, tsOf(dc.MinStartDate)
+		}
+		if dc.StartDateWindow != nil {
+			got.hasWin, got.win = true, tsKey{dc.StartDateWindow.Seconds, dc.StartDateWindow.Nanos}
+		}
+		got.years = dc.YearsInThePast
+	}
+	if want != got {
+		return []V{{Kind: "C11/stored-criterion-differs-from-request",
+			Detail: fmt.Sprintf("%s: requested %v, basket %s now holds %v", st.Act.Label, want, denom, got)}}
 	}
 	return nil
 }
